@@ -6,9 +6,17 @@ repo = sys.argv[1] if len(sys.argv) > 1 else "/repo"
 base = json.load(open("/root/.vp/BASELINE.json"))
 with tempfile.TemporaryDirectory() as d:
     x = os.path.join(d, "j.xml")
-    subprocess.run(["/venv/bin/python", "-m", "pytest", "-q", "-p", "no:cacheprovider", "--timeout=900",
-                    "--continue-on-collection-errors", "--junitxml=" + x], cwd=repo,
-                   stdout=subprocess.DEVNULL, stderr=subprocess.DEVNULL, env=dict(os.environ, PYTHONPATH=repo))
+    cmd = ["/venv/bin/python", "-m", "pytest", "-q", "-p", "no:cacheprovider", "--timeout=900",
+           "--continue-on-collection-errors", "--junitxml=" + x]
+    # tests/test_integration.py binds the fixed port 8080: give each run a private network namespace when
+    # the sandbox allows it, so that concurrent runs of the suite cannot disturb each other
+    import shutil
+    if shutil.which("unshare") and subprocess.run(["unshare", "-rn", "true"], stdout=subprocess.DEVNULL,
+                                                  stderr=subprocess.DEVNULL).returncode == 0:
+        import shlex
+        cmd = ["unshare", "-rn", "sh", "-c", "ip link set lo up; exec " + " ".join(shlex.quote(c) for c in cmd)]
+    subprocess.run(cmd, cwd=repo, stdout=subprocess.DEVNULL, stderr=subprocess.DEVNULL,
+                   env=dict(os.environ, PYTHONPATH=repo))
     passed = set()
     for tc in ET.parse(x).getroot().iter("testcase"):
         if not any(c.tag in ("failure", "error", "skipped") for c in tc):
